@@ -97,6 +97,23 @@ def _consistency(spec, ctx):
     ok3, m3 = ctx.call(Bivariate.select_copula, X0.copy())
     ctx.check(ok3 and type(m3) is type(m) and m3.theta == m.theta, 'select.alias', 'C11:alias-differs',
               lambda: dict(where, a=[fam, m.theta], b=[repr(m3)[:60], getattr(m3, 'theta', None)]))
+    # the returned model is the caller's: a later call on other data must not change it
+    snap = (type(m), m.theta, m.tau)
+    rng2 = rng_for(spec['seed'], 'other')
+    for _ in range(2):
+        Y = samplers.SAMPLERS[fam](float(arch.theta_from_tau(fam, rng2.uniform(0.2, 0.7) if fam != 'frank' else rng2.uniform(0.2, 0.7))),
+                                   400, rng2)
+        oky, my = ctx.call(select_copula, Y)
+        ctx.check(oky and my is not m and (type(m), m.theta, m.tau) == snap, 'select.result-not-shared',
+                  'C11:earlier-result-changed-by-later-call', lambda: dict(where, before=[snap[1], snap[2]], after=[m.theta, m.tau],
+                                                                         same_object=bool(oky and my is m)))
+    # the selection is a function of the sample, not of the order of its rows
+    if len(X) >= 6:
+        Xs = X0[np.argsort(X0[:, 0], kind='stable')]
+        oks, ms = ctx.call(select_copula, Xs)
+        ctx.check(oks and type(ms) is type(m) and (ms.theta == m.theta or abs(ms.theta - m.theta) <= 1e-9 * max(1, abs(m.theta))),
+                  'select.row-order-invariant', 'C11:selection-depends-on-row-order',
+                  lambda: dict(where, original=[fam, m.theta], sorted_rows=[repr(ms)[:50], getattr(ms, 'theta', None)]))
     ctx.nontriv('%s|%d|%d' % (spec['kind'], spec['n'], spec['seed']))
 
 
@@ -116,6 +133,14 @@ def _recovery(spec, ctx):
             continue
         ctx.tally(cell, _fam_of(m) == fam)
         ctx.ok('select.recovery-run')
+        if r % 4 == 0:
+            # same sample, rows sorted by one column: same selection
+            j = (r // 4) % 2
+            oks, ms = ctx.call(select_copula, X[np.argsort(X[:, j], kind='stable')])
+            ctx.check(oks and type(ms) is type(m) and (ms.theta == m.theta or abs(ms.theta - m.theta) <= 1e-9 * max(1, abs(m.theta))),
+                      'select.row-order-invariant', 'C11:selection-depends-on-row-order',
+                      lambda: {'family': fam, 'tau': tau, 'n': spec['n'], 'original': [_fam_of(m), m.theta],
+                               'sorted_rows': [_fam_of(ms) if oks else repr(ms)[:50], getattr(ms, 'theta', None)]})
     ctx.nontriv('%s|%d' % (cell, spec['seed']))
     ctx.sample({'mode': 'recovery', 'family': fam, 'tau': tau, 'theta': th, 'n': spec['n']})
 
